@@ -155,6 +155,7 @@ func init() {
 		partStepPairs(c, a, [][2]string{{"leave", "join2"}, {"join", "leave2"}, {"join", "join2"}, {"delete", "join2"}})
 		partGated(c, a, []func(*sut.Proc) *e2.Result{e2.G6SameKeyActionWriters, e2.G5SameKeyComponentWriters, e2.G4ModuleStateRace}, 1)
 		partLagSenders(c, a)
+		partBigSession(c, a) // the views of hundreds of subscribers of one type
 		return a.finish(c)
 	}
 	registry["C02"] = func(c *check.Ctx) int {
@@ -170,7 +171,7 @@ func init() {
 			})
 		partConcurrent(c, a, "C02")
 		partIntegrityStorm(c, a)
-		partStepThrough(c, a, []string{"join", "leave", "delete", "entityadd", "compdel", "custom"})
+		partStepThrough(c, a, []string{"join", "leave", "delete", "entityadd", "compdel", "custom", "switch-vs-lastleave"})
 		partStepPairs(c, a, [][2]string{{"leave", "join2"}, {"join", "leave2"}, {"leave", "leave2"}})
 		partLagging(c, a)
 		partLagSenders(c, a)
@@ -234,6 +235,7 @@ func init() {
 		partIntegrityStorm(c, a)
 		partStepThrough(c, a, []string{"customto-vs-customto", "custom"})
 		partBigSession(c, a)
+		partLagSenders(c, a) // plain and addressed messages towards a member that lags and catches up
 		return a.finish(c)
 	}
 	registry["C16"] = func(c *check.Ctx) int {
